@@ -89,6 +89,7 @@ func (fr *Frame) enterLoop(li *loopInfo, head *ssa.BasicBlock) {
 	}
 	entryMem := fr.curMem
 	li.entryMemForOld = entryMem
+	li.entryPhi = entryPhi
 	li.frameBase = ex.lastRef
 	// 2. invariant on entry
 	invs := fr.loopInvs(li)
